@@ -153,6 +153,48 @@ func c14Scenarios() []c14Scenario {
 		}}
 	}
 	out = append(out, enumerators("S8-two-enumerators", false), enumerators("S9-enumerators-vs-stop", true))
+	// S10: clients that are already connected send connection-state commands (AUTH with one
+	// and two arguments, SELECT) exactly while Stop / Restart closes their connections
+	stateVsClose := func(name string, call func(s *redis.Server) error, password bool) c14Scenario {
+		return c14Scenario{Name: name, New: func() *sched.Run {
+			var outcomes []string
+			return &sched.Run{
+				Body: func() {
+					s := srv.NewServer(srv.NewDouble())
+					if password {
+						s.SetRequirePass("pw")
+					}
+					if s.Start() != nil {
+						return
+					}
+					var cls []*sched.Client
+					for i := 0; i < 2; i++ {
+						if cl, o := sched.Dial(":6379"); o.Status == "ok" {
+							cl.Do("PING")
+							cls = append(cls, cl)
+						}
+					}
+					for i, cl := range cls {
+						i, cl := i, cl
+						vrt.Go(fmt.Sprintf("client%d", i), func() {
+							var r sched.Outcome
+							if i == 0 {
+								r = cl.Do("AUTH", "pw")
+							} else {
+								r = cl.Do("AUTH", "user", "pw")
+							}
+							r2 := cl.Do("SELECT", "3")
+							outcomes = append(outcomes, r.Status+r2.Status)
+						})
+					}
+					outcomes = append(outcomes, fmt.Sprint("call:", call(s)))
+				},
+				Verdict: c14Verdict(func() string { sort.Strings(outcomes); return strings.Join(outcomes, ",") }),
+			}
+		}}
+	}
+	out = append(out, stateVsClose("S10-auth-vs-stop", func(s *redis.Server) error { return s.Stop() }, true),
+		stateVsClose("S11-auth-vs-restart", func(s *redis.Server) error { return s.Restart() }, false))
 	// S4: Stop concurrent with a client mid-command and a client connecting
 	lifecycle := func(name string, call func(s *redis.Server) error, idleFirst bool) c14Scenario {
 		return c14Scenario{Name: name, New: func() *sched.Run {
@@ -356,7 +398,7 @@ func init() {
 	fw.Register(&fw.Prop{
 		ID:    "C14",
 		Level: "model_checking",
-		Rule:  "11 scenarios on the real Start/accept loop/connection goroutines over the in-memory network: two clients doing CONFIG SET/GET; a client connecting while another CONFIG SETs requirepass; two clients running a command of every executor family (and AUTH sequences) against a race-free double; two clients connecting/disconnecting while the harness enumerates the registry (Conns, ConnByUUID, connection accessors); Stop concurrent with clients mid-command and connecting; Restart with an idle client; Restart after SetRequirePass; two TLS clients (real handshake) doing CONFIG SET while Stop runs; two application goroutines enumerating the registry at once right after a connect, with a further client connecting or with Stop running. Every schedule within deviation bound 2 (thorough 3) is executed with every field access of the instrumented framework feeding a vector-clock happens-before oracle (edges: go, mutex/RWMutex release-acquire, sync.Map per key, connection write->read, dial->accept, close->EOF/error; scheduler hand-offs are NOT edges); locations found racy become scheduling points and the exploration is repeated until the racy set is stable. A race is an unordered pair of access sites on one location with at least one write.",
+		Rule:  "13 scenarios on the real Start/accept loop/connection goroutines over the in-memory network: two clients doing CONFIG SET/GET; a client connecting while another CONFIG SETs requirepass; two clients running a command of every executor family (and AUTH sequences) against a race-free double; two clients connecting/disconnecting while the harness enumerates the registry (Conns, ConnByUUID, connection accessors); Stop concurrent with clients mid-command and connecting; Restart with an idle client; Restart after SetRequirePass; two TLS clients (real handshake) doing CONFIG SET while Stop runs; two application goroutines enumerating the registry at once right after a connect, with a further client connecting or with Stop running; two connected clients sending AUTH (one- and two-argument) and SELECT while Stop / Restart closes their connections. Every schedule within deviation bound 2 (thorough 3) is executed with every field access of the instrumented framework feeding a vector-clock happens-before oracle (edges: go, mutex/RWMutex release-acquire, sync.Map per key, connection write->read, dial->accept, close->EOF/error; scheduler hand-offs are NOT edges); locations found racy become scheduling points and the exploration is repeated until the racy set is stable. A race is an unordered pair of access sites on one location with at least one write.",
 		Assumptions: []string{
 			"setters documented as pre-start configuration (SetTracer, SetCommandHandler, RegisterExexutor, SetPort) are called before Start only; SetRequirePass before Restart is called by the lifecycle thread between Stop-free calls as the repository's own tests do",
 			"the race-detector stress with 2..32 clients is replaced by exhaustive small scenarios: a race is a pair of accesses, two contending threads exhibit it",
